@@ -57,7 +57,7 @@ CONSTANTS Threads,        \* all threads (strings; a drain-lock owner is a threa
           MaxSusp,        \* bound on dispatch_suspend calls
           HandlerMerges,  \* TRUE: the event handler may call merge_data on its own source
           InitActive,     \* TRUE: start from an activated, installed source
-          Mut             \* "none" or the name of a spec mutation (non-vacuity)
+          Mut             \* "none", or the name of a variant of the transcription (see Variants below)
 
 VARIABLES cfg,            \* [kind, target] of this execution (never changes)
           st,             \* dq_state of the source (DQState record)
@@ -79,7 +79,20 @@ vars == <<cfg, st, pending, dsdata, installed, tq, holder, pc, lv, g, inH, nmerg
 \* unmerged: a REPLACE handler saw a value nobody had merged
 Ghost0 == [mSum |-> 0, dSum |-> 0, mOr |-> 0, dOr |-> 0, mSet |-> {}, mN |-> 0, mLast |-> 0, dN |-> 0, dLast |-> 0,
            zero |-> FALSE, unmerged |-> FALSE]
-L0 == [ret |-> "idle", v |-> 0, mk |-> FALSE, wkret |-> "idle", prev |-> 0, owned |-> Owned0]
+(* Variants (constant Mut).  Each is a point-wise change of the transcription that a realistic edit of
+   the C code produces.  The harmful ones are the non-vacuity mutants TLC must refute; all of them are
+   deviations a recorded execution can be re-validated against when it does not follow the
+   transcription: whether the code's observed behaviour endangers the property is then decided by
+   model checking the variant, not by the mismatch itself.
+     "latch_load_store"  latch = load then store of 0 (not an exchange)        -> lost merge
+     "merge_load_store"  merge_data = load then store (not an atomic add / or)    -> lost merge
+     "wakeup_nodirty"    merge_data wakes up without DISPATCH_WAKEUP_MAKE_DIRTY    -> merge stranded
+     "no_drain_lock"     the source is invoked although drain_try_lock failed      -> handler re-entered
+     "deliver_zero"      latch_and_call calls out whatever it latched              -> handler reports 0
+     "no_recheck"        invoke2 does not look at ds_pending_data after the callout (no starvation avoidance)
+     "always_wake"       source_wakeup targets the queue without looking at ds_pending_data
+     "always_latch"      invoke2 latches without looking at ds_pending_data first *)
+L0 == [ret |-> "idle", v |-> 0, old |-> 0, mk |-> FALSE, wkret |-> "idle", prev |-> 0, owned |-> Owned0]
 
 RECURSIVE BitOr(_, _)
 BitOr(a, b) == IF a = 0 THEN b ELSE IF b = 0 THEN a
@@ -106,7 +119,9 @@ Go(t, l) == pc' = [pc EXCEPT ![t] = l]
 Root == cfg.target = "global"
 \* entry of _dispatch_source_wakeup.  ds_is_installed only ever changes from false to true: once it is
 \* true its (plain) read is determined and is not a step of its own
-WkEntry == IF installed THEN "wk_pend" ELSE "wk_inst"
+WkInstalled == IF Mut = "always_wake" THEN "wk_rmw" ELSE "wk_pend"
+WkEntry == IF installed THEN WkInstalled ELSE "wk_inst"
+AfterCall == IF Mut = "no_recheck" THEN "d_unlock" ELSE "i2_after"
 GHOST == <<g, inH, nmerge, nsusp, held, actCalled>>
 DATA == <<pending, dsdata>>
 
@@ -116,19 +131,23 @@ CallMerge(t, v) ==
     /\ pc[t] \in {"idle", "h_body"}
     /\ (pc[t] = "idle" => t \in Mergers) /\ (pc[t] = "h_body" => HandlerMerges)
     /\ nmerge < MaxMerges /\ v \in ValsOf(cfg.kind)
-    /\ lv' = [lv EXCEPT ![t].ret = pc[t], ![t].v = v] /\ Go(t, "m_upd") /\ nmerge' = nmerge + 1
+    /\ lv' = [lv EXCEPT ![t].ret = pc[t], ![t].v = v]
+    /\ Go(t, IF Mut = "merge_load_store" /\ cfg.kind # "replace" THEN "m_ld" ELSE "m_upd") /\ nmerge' = nmerge + 1
     /\ UNCHANGED <<cfg, st, DATA, installed, tq, holder, g, inH, nsusp, held, actCalled>>
 \* os_atomic_add2o / os_atomic_or2o / os_atomic_store2o(dr, ds_pending_data, val, relaxed)
+\* (variant merge_load_store: the value read by MLoad is combined and stored back)
+MLoad(t) == /\ pc[t] = "m_ld" /\ lv' = [lv EXCEPT ![t].old = pending] /\ Go(t, "m_upd")
+            /\ UNCHANGED <<cfg, st, DATA, installed, tq, holder, GHOST>>
 MUpdate(t) ==
     /\ pc[t] = "m_upd"
-    /\ pending' = Apply(cfg.kind, pending, lv[t].v) /\ g' = GMerge(lv[t].v)
+    /\ pending' = Apply(cfg.kind, IF Mut = "merge_load_store" THEN lv[t].old ELSE pending, lv[t].v) /\ g' = GMerge(lv[t].v)
     /\ lv' = [lv EXCEPT ![t].mk = (Mut # "wakeup_nodirty"), ![t].wkret = lv[t].ret]  \* dx_wakeup(ds, 0, MAKE_DIRTY), then return
     /\ Go(t, WkEntry)
     /\ UNCHANGED <<cfg, st, dsdata, installed, tq, holder, inH, nmerge, nsusp, held, actCalled>>
 
 (* ============================ _dispatch_source_wakeup ============================ *)
 \* if (!ds->ds_is_installed) tq = dkq (= TARGET, the source is direct)      (plain read)
-WkInst(t) == /\ pc[t] = "wk_inst" /\ Go(t, IF installed THEN "wk_pend" ELSE "wk_rmw")
+WkInst(t) == /\ pc[t] = "wk_inst" /\ Go(t, IF installed THEN WkInstalled ELSE "wk_rmw")
              /\ UNCHANGED <<cfg, st, DATA, installed, tq, holder, lv, GHOST>>
 \* else if (os_atomic_load2o(dr, ds_pending_data, relaxed)) tq = TARGET; otherwise NONE: nothing happens
 WkPend(t) == /\ pc[t] = "wk_pend" /\ Go(t, IF pending # 0 THEN "wk_rmw" ELSE lv[t].wkret)
@@ -202,15 +221,16 @@ DLock(w) ==
 I2Install(w) == /\ pc[w] = "i2_install" /\ installed' = TRUE /\ Go(w, "i2_susp")
                 /\ UNCHANGED <<cfg, st, DATA, tq, holder, lv, GHOST>>
 \* if (DISPATCH_QUEUE_IS_SUSPENDED(ds)) return ds->do_targetq
-I2Susp(w) == /\ pc[w] = "i2_susp" /\ Go(w, IF Suspended(st) THEN "d_finish" ELSE "i2_pend")
+LatchPc == IF Mut = "latch_load_store" THEN "latch_ld" ELSE "latch"
+I2Susp(w) == /\ pc[w] = "i2_susp" /\ Go(w, IF Suspended(st) THEN "d_finish" ELSE IF Mut = "always_latch" THEN LatchPc ELSE "i2_pend")
              /\ UNCHANGED <<cfg, st, DATA, installed, tq, holder, lv, GHOST>>
 \* if (os_atomic_load2o(dr, ds_pending_data, relaxed)) latch_and_call
-I2Pend(w) == /\ pc[w] = "i2_pend" /\ Go(w, IF pending # 0 THEN (IF Mut = "latch_load_store" THEN "latch_ld" ELSE "latch") ELSE "d_unlock")
+I2Pend(w) == /\ pc[w] = "i2_pend" /\ Go(w, IF pending # 0 THEN LatchPc ELSE "d_unlock")
              /\ UNCHANGED <<cfg, st, DATA, installed, tq, holder, lv, GHOST>>
 \* after the latch: REPLACE with a zero payload is skipped, dispatch_assume(prev != 0) skips any zero
 AfterLatch(w, prev) ==
     IF prev = 0 /\ Mut # "deliver_zero"
-    THEN dsdata' = (IF cfg.kind = "replace" THEN dsdata ELSE prev) /\ Go(w, "i2_after")
+    THEN dsdata' = (IF cfg.kind = "replace" THEN dsdata ELSE prev) /\ Go(w, AfterCall)
     ELSE dsdata' = prev /\ Go(w, "h_start")
 \* uint64_t prev = os_atomic_xchg2o(dr, ds_pending_data, 0, relaxed); dr->ds_data = prev
 Latch(w) == /\ pc[w] = "latch"
@@ -224,7 +244,7 @@ LatchSt(w) == /\ pc[w] = "latch_st" /\ pending' = 0 /\ AfterLatch(w, lv[w].prev)
 \* the callout: the handler reads dispatch_source_get_data
 HStart(w) == /\ pc[w] = "h_start" /\ g' = GDeliver(dsdata) /\ inH' = inH \cup {w} /\ Go(w, "h_body")
              /\ UNCHANGED <<cfg, st, DATA, installed, tq, holder, lv, nmerge, nsusp, held, actCalled>>
-HEnd(w) == /\ pc[w] = "h_body" /\ inH' = inH \ {w} /\ Go(w, "i2_after")
+HEnd(w) == /\ pc[w] = "h_body" /\ inH' = inH \ {w} /\ Go(w, AfterCall)
            /\ UNCHANGED <<cfg, st, DATA, installed, tq, holder, lv, g, nmerge, nsusp, held, actCalled>>
 \* if (avoid_starvation && os_atomic_load2o(dr, ds_pending_data, relaxed)) retq = ds->do_targetq
 I2After(w) == /\ pc[w] = "i2_after" /\ Go(w, IF pending # 0 THEN "d_finish" ELSE "d_unlock")
@@ -250,7 +270,7 @@ DFinish(w) ==
 
 (* ================================ next-state ================================ *)
 Call(t) == (\E v \in ValsOf(cfg.kind) : CallMerge(t, v)) \/ CallSuspend(t) \/ CallResume(t) \/ CallActivate(t)
-Lib(t) == \/ MUpdate(t) \/ WkInst(t) \/ WkPend(t) \/ WkRmw(t)
+Lib(t) == \/ MLoad(t) \/ MUpdate(t) \/ WkInst(t) \/ WkPend(t) \/ WkRmw(t)
           \/ SuspRmw(t) \/ ResRmw(t) \/ ActRmw(t) \/ AInherit(t) \/ (\E b \in BOOLEAN : AInstall(t, b))
           \/ DLock(t) \/ I2Install(t) \/ I2Susp(t) \/ I2Pend(t) \/ Latch(t) \/ LatchLd(t) \/ LatchSt(t)
           \/ HStart(t) \/ HEnd(t) \/ I2After(t) \/ DUnlock(t) \/ DXor(t) \/ DFinish(t)
@@ -266,7 +286,7 @@ FairSpec == /\ Spec /\ \A t \in Threads : WF_vars(Lib(t))
 SubMask(a, b) == BitOr(a, b) = b
 
 TypeOK == /\ pending \in Nat /\ dsdata \in Nat /\ tq \in Nat /\ installed \in BOOLEAN
-          /\ pc \in [Threads -> {"idle", "m_upd", "wk_inst", "wk_pend", "wk_rmw", "s_rmw", "r_rmw", "a_rmw",
+          /\ pc \in [Threads -> {"idle", "m_ld", "m_upd", "wk_inst", "wk_pend", "wk_rmw", "s_rmw", "r_rmw", "a_rmw",
                                  "a_inherit", "a_install", "crash"} \cup DrainPcs]
 Quiescent == (\A t \in Threads : pc[t] = "idle") /\ tq = 0 /\ ~Suspended(st)
 
@@ -287,7 +307,7 @@ NoReentry == Cardinality(inH) <= 1
 NoStrand == Quiescent => (pending = 0 /\ [st EXCEPT !.dirty = FALSE, !.qos = 0, !.ro = FALSE] = Idle0)
 \* structure: the source sits at most once in its target queue, only while ENQUEUED and not being drained;
 \* whoever is inside invoke2 owns the drain lock; width accounting never borrows
-InDrain(w) == pc[w] \in DrainPcs \/ (pc[w] \in {"m_upd", "wk_inst", "wk_pend", "wk_rmw"} /\ lv[w].ret = "h_body")
+InDrain(w) == pc[w] \in DrainPcs \/ (pc[w] \in {"m_ld", "m_upd", "wk_inst", "wk_pend", "wk_rmw"} /\ lv[w].ret = "h_body")
 TqBound == tq <= 1 /\ (tq = 1 => st.enq)
 LockHeld == \A w \in Threads : InDrain(w) => (st.owner = w /\ st.ib /\ st.used = 1)
 OwnedOK == \A w \in Threads : pc[w] \in {"d_unlock", "d_finish"} => SubOk(st, lv[w].owned)
